@@ -451,6 +451,22 @@ func c13(c *Ctx) {
 			}
 			nCnt++
 			nInF++
+			// a count comparison of two signatures is made for every configuration: where the function can report success
+			// (nil error / normal return) the comparison has been evaluated — it is not skipped on a cache hit or a flag
+			if iffs := bo.Referrers(); iffs != nil && errIndex(f.Signature) >= 0 {
+				isCmp := func(j ssa.Instruction) bool { return j == ssa.Instruction(bo) }
+				skipped := ""
+				for _, ret := range returnsOf(f) {
+					if !isNilConst(retResult(ret, errIndex(f.Signature))) {
+						continue
+					}
+					if !passedBefore(f, ret, isCmp, nil) {
+						skipped = p.Pos(posOf(ret))
+					}
+				}
+				r.Check(skipped == "", "C13.R5", "count comparison made on every successful way through "+shortName(f)+" #"+itoa2(nInF), p.Pos(posOf(bo)), "every nil-error return has passed the comparison",
+					"the function can report success ("+skipped+") without having compared the counts of the two signatures (the check is skipped on a cache hit, a flag or a re-apply): a callback with too few parameters is woven in without being rejected")
+			}
 			r.Check(lx == ly, "C13.R5", "counts of the same kind compared in "+shortName(f)+" #"+itoa2(nInF), p.Pos(posOf(bo)), lx+" against "+ly,
 				"a count check compares the number of parameters of one signature with the number of results of the other ("+lx+" against "+ly+"): callbacks with too few or too many parameters pass the check, or well-formed ones are refused")
 		})
